@@ -715,7 +715,7 @@ def sec_python_stats(ck):
 
 
 # ---------------------------------------------------------------------------- mixed effects (Python)
-HDR_MFX = ("From Coq Require Import List Bool ZArith NArith QArith.\n"
+HDR_MFX = ("From Coq Require Import List Bool ZArith NArith QArith Qabs.\n"
            "From NV.Lib Require Import Harness.\n"
            "From NV.C17 Require Import Model ModelMfx.\n"
            "Close Scope Q_scope.\n"
@@ -768,8 +768,8 @@ def ref_em(X, P, Y, V1, n_iter):
 
 def ref_loglike(Y, V1, fit, V2):
     n = len(Y)
-    tv = [float(V2 + v) for v in V1]
-    return -0.5 * (sum(float(y - f) ** 2 / t for y, f, t in zip(Y, fit, tv)) + sum(math.log(t) for t in tv) + math.log(2 * math.pi) * n)
+    tv = [float(V2) + float(v) for v in V1]
+    return -0.5 * (sum((float(y) - float(f)) ** 2 / t for y, f, t in zip(Y, fit, tv)) + sum(math.log(t) for t in tv) + math.log(2 * math.pi) * n)
 
 
 def close(a, b, tol=1e-10):
@@ -812,11 +812,14 @@ def sec_mixed_effects(ck):
         y_ = np.array(m.Y_, dtype=float)
         return {"beta_": b.reshape(b.shape[0], -1), "V2": np.array(m.V2, dtype=float).reshape(-1), "Y_": y_.reshape(y_.shape[0], -1)}
 
-    def arg(A):
-        """n_tests == 1 is passed in the documented 1-D form (n_samples,)"""
-        return A[:, 0] if A.shape[1] == 1 else A
+    form = {"oned": False}
 
-    # FINDING: a 2-D input with a single test column is rejected (check_arrays adds an axis when size == shape[0])
+    def arg(A):
+        """n_tests == 1: both documented input forms, (n_samples,) and (n_samples, 1), alternating by case"""
+        return A[:, 0] if (A.shape[1] == 1 and form["oned"]) else A
+
+    # repaired by cd07de9 (reported again if it returns): a 2-D input with a single test column was rejected
+    # (check_arrays added an axis when size == shape[0])
     Yc, Vc = data(4, 1)
     try:
         mc = ME.MixedEffectsModel(np.ones((4, 1)), n_iter=1).fit(Yc, Vc)
@@ -848,6 +851,7 @@ def sec_mixed_effects(ck):
             for n_iter in ([0, 1, 2, 5] if not ck.thorough() else [0, 1, 2, 3, 5, 8]):
                 Y, V1 = data(n, p)
                 ncase += 1
+                form["oned"] = (ncase % 2 == 0)
                 ck.count(("mfx", kind, n, p, n_iter, ncase), bucket="mixed_effects:fit-%s" % kind)
                 m = ME.MixedEffectsModel(X, n_iter=n_iter)
                 # oracle contract sampled: numpy's pinv is the Moore-Penrose inverse
@@ -856,10 +860,16 @@ def sec_mixed_effects(ck):
                 m.fit(arg(Y), arg(V1))
                 got = state(m)
                 ll = np.asarray(m.log_like(arg(Y), arg(V1)), dtype=float).reshape(-1)
+                exact = n_iter <= 2 and n <= 8               # exact rationals square in size at every EM step
+                Xr = Xf if exact else [[float(v) for v in r] for r in Xf]
+                Pr = Pf if exact else [[float(v) for v in r] for r in Pf]
                 for j in range(p):
                     yj = [frac(v) for v in Y[:, j]]
                     vj = [frac(v) for v in V1[:, j]]
-                    beta, fit, V2 = ref_em(Xf, Pf, yj, vj, n_iter)
+                    if exact:
+                        beta, fit, V2 = ref_em(Xr, Pr, yj, vj, n_iter)
+                    else:                                     # same recursion in plain Python floats, sample by sample
+                        beta, fit, V2 = ref_em(Xr, Pr, [float(v) for v in yj], [float(v) for v in vj], n_iter)
                     okb = close(got["beta_"][:, j], [float(b) for b in beta])
                     okv = close(got["V2"][j], float(V2))
                     okl = close(ll[j], ref_loglike(yj, vj, fit, V2))
@@ -870,7 +880,7 @@ def sec_mixed_effects(ck):
                                 {"X": X.tolist(), "n_iter": n_iter, "Y": Y[:, j].tolist(), "V1": V1[:, j].tolist(),
                                  "got": {"beta_": got["beta_"][:, j].tolist(), "V2": float(got["V2"][j])},
                                  "expected": {"beta": [str(b) for b in beta], "V2": str(V2)}})
-                    if n <= 6 and n_iter <= 2 and j == 0:
+                    if n <= 6 and n_iter <= 2 and j == 0 and kind != "cov":
                         terms.append("(let r := fit_method %s %s %s fresh_obj %s %s in qclose (fit_V2 r) %s && qlclose (fit_beta r) %s)%%bool"
                                      % (cqmat(Pf), cqmat(Xf), cnat(n_iter), cql(yj), cql(vj), cq(float(got["V2"][j])), cql(got["beta_"][:, j].tolist())))
                         metas.append(("mfx", Pf, Xf, n_iter, yj, vj))
@@ -897,14 +907,13 @@ def sec_mixed_effects(ck):
                                 "MixedEffectsModel(X %s %dx%d, n_iter=%d): fit(A) then fit(B) on one object (%s) gives V2=%s, a fresh object fitted to B gives V2=%s"
                                 % (kind, X.shape[0], X.shape[1], n_iter, prev, np.asarray(obj.V2).tolist(), fresh["V2"].tolist()),
                                 {"X": X.tolist(), "n_iter": n_iter, "kind": prev,
+                                 "note": "one MixedEffectsModel(X, n_iter) object, calls in order; one-column arrays passed as %s" % ("(n,)" if form["oned"] else "(n, 1)"),
                                  "sequence": [{"call": "fit", "Y": a.tolist(), "V1": b.tolist()} for (a, b) in seq] + [{"call": "fit", "Y": Y.tolist(), "V1": V1.tolist()}],
                                  "reused_object": tolist(state(obj)), "fresh_object": tolist(fresh)})
                 # wrappers agree with the class / the definition
                 if kind in ("one", "two", "cov"):
                     col = X.shape[1] - 1 if kind != "one" else 0
                     X0 = X * (1 - np.eye(X.shape[1])[col])
-                    if p == 1:
-                        continue                          # wrappers index Y.shape[1]-style 2-D inputs; covered with p >= 2
                     m0 = ME.MixedEffectsModel(X0, n_iter=n_iter).fit(Y, V1)
                     m1 = ME.MixedEffectsModel(X, n_iter=n_iter).fit(Y, V1)
                     f_ref = np.maximum(0, 2 * (m1.log_like(Y, V1) - m0.log_like(Y, V1)))
@@ -921,6 +930,15 @@ def sec_mixed_effects(ck):
                                 {"X": X.tolist(), "column": col, "Y": Y.tolist(), "V1": V1.tolist(), "out": [np.asarray(o).tolist() for o in out4]})
                     elif not (len(out4) == 2 and close(out4[0], m1.beta_[col]) and close(out4[1], m1.V2)):
                         ck.fail("mixed_effects/mfx_stat-effect-var", "mfx_stat effect/var outputs are not beta_[column] / V2 of the full model",
+                                {"X": X.tolist(), "column": col, "Y": Y.tolist(), "V1": V1.tolist()})
+                    outa = ME.mfx_stat(Y, V1, X, col, n_iter=n_iter, return_t=True, return_f=True, return_effect=True, return_var=True)
+                    if len(outa) == 4 and close(outa[0], t_ref) and close(outa[1], f_ref) and close(outa[2], m1.V2) and close(outa[3], m1.beta_[col]) \
+                            and not close(outa[2], m1.beta_[col]):
+                        ck.fail("mixed_effects/mfx_stat-returns-var-before-effect",
+                                "mfx_stat(all four outputs) returns (t, f, var, effect); documented order is (tstat, fstat, effect, var)",
+                                {"X": X.tolist(), "column": col, "Y": Y.tolist(), "V1": V1.tolist()})
+                    elif not (len(outa) == 4 and close(outa[0], t_ref) and close(outa[1], f_ref) and close(outa[2], m1.beta_[col]) and close(outa[3], m1.V2)):
+                        ck.fail("mixed_effects/mfx_stat-output-order", "mfx_stat(all outputs) is not (tstat, fstat, effect, var)",
                                 {"X": X.tolist(), "column": col, "Y": Y.tolist(), "V1": V1.tolist()})
                     if kind == "one":
                         t1 = ME.one_sample_ttest(Y, V1, n_iter=n_iter)
